@@ -19,6 +19,7 @@ UNIT_TRUST = {
     "subscriber": [IMBL, BCAST, TASK, RBOX, STD, "R-PIN: self: Pin<&mut Self> => &mut self", "R-BREAKVAL: loop-with-break-value desugared", "vstd specs for Vec, vec::IntoIter (remaining() is prophetic), Option, mem::replace, unreachable_unchecked (requires false)"],
     "transaction": [IMBL, BCAST, STD, "R-MUTSELF: `fn commit(mut self)` => `fn commit(self) { let mut this = self; … }` (Verus has no `mut self`)", "R-PANIC on insert/set/remove/entry", "R-TRAIT: Drop::drop / Deref::deref of the entry types verified as inherent methods (a trait method cannot carry a precondition)", "vstd specs for Vec (push, clear, is_empty), mem::take (assume_specification)"],
     "entry": [IMBL, BCAST, STD, "R-TRAIT: Drop::drop / Deref::deref verified as inherent methods", "ObservableVector::set/remove appear with the clauses proved in unit `vector`"],
+    "traits": ["R-TRAIT: VectorObserver as a Verus trait with the abstract value `parts()`; the provided methods of VectorObserverExt verified as associated functions over any observer (receiver => parameter)", "the adapters' constructors are uninterpreted functions of their arguments here (their behaviour is decided in units head/tail/skip and by the bounded checks)"],
     "ops": [ITERS, SMALLVEC, "prelude/vecseq.rs: Vec stand-in (into_iter, is_empty, vec![x]) and SeqIt::flat_map / filter_map: the closure is applied to every item in order, results concatenated — ASSUMED", "R-TRAIT: `impl VectorDiffContainerOps<T> for X` methods verified as associated functions (receiver => parameter `this`), associated types replaced by the impl's own `type … = …;` lines", "R-WILD: `_` fn parameters named"],
     "shared_async": ["prelude/arc.rs (Arc/Weak stand-ins, R-LOCK)", "prelude/rwlock_handles_tokio.rs: tokio::sync::RwLock under R-AWAIT + R-LOCK (lock free when requested) — ASSUMED", "state.rs functions with the contracts proved in unit `state` (//@viewof)", "contract text taken from unit `shared` (//@ like)", "R-AWAIT: `async fn` => `fn`, `.await` dropped"],
     "unique_async": ["readlock_tokio::Shared stand-in (as in unit unique) — ASSUMED", "state.rs functions with the contracts proved in unit `state` (//@viewof)", "contract text taken from unit `unique` (//@ like)", "R-AWAIT"],
@@ -46,8 +47,8 @@ BND = "bounded exhaustive enumeration on the real crates as stand-in for what Ve
 PROPS = {
     "C01": P("proof", ["state", "esub", "shared", "unique"], ["obs"],
         "Verus discharges the contracts of every function of state.rs: poll_update is ready exactly when version==0 or observed<version, marks the value observed, otherwise stays pending and changes nothing else; set/update always bump the version by one and store the value; set_if_not_eq / set_if_hash_not_eq store+notify+return Some(previous) exactly when ne / hashes differ and otherwise leave the whole state identical; update_if bumps exactly when the closure returned true.",
-        "sequential (R-LOCK); the sync handle layer is under contract too: Subscriber::{new,next_now,next_ref_now,get,read,poll_next_ref,reset,clone,clone_reset} and ObservableReadGuard over a caller view of state.rs, SharedObservable / ObservableWriteGuard / Observable setters, getters and subscribe* over the contracts proved for state.rs (Arc/RwLock/readlock stand-ins); PartialEq::ne / hash deterministic; version < u64::MAX; try_read/try_write, Stream::poll_next/Next::poll (one-line maps over poll_next_ref) and the async flavour are not under contract",
-        VERUS + "; " + BND, ["Subscriber's Stream/Future impls (map over poll_next_ref), try_read/try_write and the async-lock flavour are bounded only"]),
+        "sequential (R-LOCK); the sync handle layer is under contract too: Subscriber::{new,next_now,next_ref_now,get,read,poll_next_ref,reset,clone,clone_reset} and ObservableReadGuard over a caller view of state.rs, SharedObservable / ObservableWriteGuard / Observable setters, getters and subscribe* over the contracts proved for state.rs (Arc/RwLock/readlock stand-ins); PartialEq::ne / hash deterministic; version < u64::MAX; Stream::poll_next, Next::poll and opt_guard_to_owned too; try_read/try_write and next_ref() (poll_fn over a closure capturing &mut self) are not under contract",
+        VERUS + "; " + BND, ["try_read/try_write and Subscriber::next_ref are bounded only"]),
     "C02": P("proof", ["state", "esub"], ["obs"],
         "Sequential obligations only: poll_update returning Pending has pushed a clone of the caller's waker onto the waker list (and only then); every notifying setter and close leave the waker list empty, and the list stand-in can only be emptied through drain(..)/mem::take whose results the code hands to wake().",
         "NO thread schedules (R-LOCK erases them); `wake` itself is R-EXT (its loop over the drained wakers is not verified)",
@@ -84,8 +85,8 @@ PROPS = {
         "Bounded only (sort.rs: closures capturing &mut, binary_search_by with caller comparator): three flavours x key tables with ties x all short histories; rebuilt view is a permutation of the source ordered by the comparison at every Pending.",
         "bounded stand-in, exhaustive in the stated scope; F4 (Truncate arm) is a known finding pinned by existing tests",
         BND + " (Verus cannot take sort.rs)", [BOUNDED_NOTE]),
-    "C12": P("proof", ["head", "tail", "skip", "subscriber"], ["chains"],
-        "Verus proves the hand-over functions: into_parts of Head/Tail/Skip returns the current view (not the internal copy), VectorSubscriber::into_values_and_*stream return snapshot + stream, and every diff a stage emits is emittable on the view rebuilt so far (what the next stage's precondition asks for). Chains of 2 and 3 adapters with taps are bounded.",
+    "C12": P("proof", ["head", "tail", "skip", "subscriber", "traits"], ["chains"],
+        "Verus proves the hand-over functions: into_parts of Head/Tail/Skip returns the current view (not the internal copy), VectorSubscriber::into_values_and_*stream return snapshot + stream, every diff a stage emits is emittable on the view rebuilt so far (what the next stage's precondition asks for), the (values, stream) pair hands itself over unchanged, and each of the 14 VectorObserverExt methods passes exactly what into_parts() returned, in order, to the right constructor. Chains of 2 and 3 adapters with taps are bounded.",
         "stand-ins assumed; chains are bounded; F6 known",
         VERUS + " (hand-over functions); " + BND + " (chains)", [GLUE]),
     "C13": P("proof", ["ops", "subscriber", "tail", "skip"], ["hts", "filter", "sort", "chains"],
